@@ -523,6 +523,36 @@ ENTRIES = {
                     ['S', 'S2'], elems='intkey'),
     'dict-items': E('dict($c.select([$, $ * 2]))',
                     lambda L, a: {x: x * 2 for x in L}),
+    # ---- lazy inner collections that refer to parameters of an outer
+    # multi-parameter lambda, gathered before they are consumed ------------------
+    'join-lazy-inner': E(
+        '$c.join($o, true, [$1, $o.where($ > $2 - 1)]).toList()',
+        lambda L, a: [[x, [z for z in a['o'] if z > y - 1]]
+                      for x in L for y in a['o']], ['o']),
+    'join-lazy-inner-reversed': E(
+        '$c.join($o, true, [$2, [1, 2].select($ + $1 + $2)]).reverse()',
+        # (inside the inner lambda $1 is the inner element again; only $2
+        # still refers to the outer lambda)
+        lambda L, a: [[y, [1 + 1 + y, 2 + 2 + y]]
+                      for x in L for y in a['o']][::-1], ['o']),
+    'accumulate-lazy-inner': E(
+        '$c.accumulate([10, 20].select($ + $2), 0).toList()',
+        lambda L, a: [0] + [[10 + x, 20 + x] for x in L]),
+    'aggregate-lazy-inner': E(
+        '$c.aggregate([$1, [1].select($ + $2)], 0)',
+        lambda L, a: _reduce(L, lambda p, q: [p, [1 + q]], 0)),
+    # ---- distinct by key on sets and key views ----------------------------
+    'set-distinct-by': E(
+        '$c.toSet().distinct($ mod 3).select($ mod 3).orderBy($)',
+        lambda L, a: sorted({x % 3 for x in L})),
+    'set-distinct-by-len': E(
+        '[set(1, 2, 3, 4, 5, 6, 7).distinct($ mod 3).len(), '
+        '$c.toSet().distinct($ mod 2).len(), $c.toSet().distinct().len()]',
+        lambda L, a: [3, len({x % 2 for x in L}), len(set(L))],
+        kinds=('tuple', 'list')),
+    'keys-distinct-by': E(
+        'dict($c.select([$, 1])).keys().distinct($ mod 2).len()',
+        lambda L, a: len({x % 2 for x in L})),
     # ---- which results are lists and which are lazy (characterisation: the
     # next operator of a pipeline is resolved against that) -------------------
     'result-kinds': E(
